@@ -460,6 +460,7 @@ def stepwise(init, path, memo=None):
     """Apply the steps one at a time, each on the materialised output of the previous one."""
     state = init
     tree, log = {}, []
+    legit = set()
     for i, sym in enumerate(path):
         key = (state.key(), sym, i + 1)
         r = memo.get(key) if memo is not None else None
@@ -471,11 +472,14 @@ def stepwise(init, path, memo=None):
         if r['res'][0] == 'exc':
             return {'kind': 'exc', 'at': i, 'exc': r['res'][1], 'missing': r['missing']}
         if r['missing']:
-            return {'kind': 'skipped', 'at': i, 'missing': r['missing']}
+            if sym.startswith('user:row_') and not any(len(x) for x in state.rows):
+                legit.add('u%d' % (i + 1))       # a row function legitimately never runs when no row reaches it
+            else:
+                return {'kind': 'skipped', 'at': i, 'missing': r['missing']}
         state = r['res'][1]
         tree.update(r['tree'])
         log.extend(r['log'])
-    return {'kind': 'ok', 'state': state, 'tree': tree, 'log': sorted(log)}
+    return {'kind': 'ok', 'state': state, 'tree': tree, 'log': sorted(log), 'legit_missing': legit}
 
 
 def lazy_steps(init, path):
@@ -495,6 +499,8 @@ def check_path(inp, path, memo=None, variants=False):
                          % ', '.join(path)))
         return viol, 'nonlink-rejected' if not viol else 'nonlink-skipped', None
     sw = stepwise(init, path, memo)
+    if lz['res'][0] == 'ok' and sw['kind'] == 'ok':
+        lz['missing'] = [m for m in lz['missing'] if m not in sw['legit_missing']]
     if lz['res'][0] == 'ok' and lz['missing']:
         viol.append(('skipped-link', 'Flow(%s) returned normally but user link(s) %s never ran'
                      % (', '.join(path), lz['missing'])))
@@ -556,7 +562,7 @@ def check_variants(init, path, lz, sw):
             viol.append((label, 'Flow(%s) %s: %s' % (', '.join(path), label, d)))
         elif r['tree'] != lz['tree'] or r['log'] != lz['log']:
             viol.append((label, 'Flow(%s) %s: side effects differ' % (', '.join(path), label)))
-        elif r['missing']:
+        elif [m for m in r['missing'] if m not in sw['legit_missing']]:
             viol.append((label, 'Flow(%s) %s: user link skipped' % (', '.join(path), label)))
 
     # groupings into nested Flows
@@ -600,7 +606,8 @@ def check_variants(init, path, lz, sw):
             viol.append(('process', 'Flow(%s).process() descriptor differs from results()' % ', '.join(path)))
         elif pr['res'][2] != rr['res'][2]:
             viol.append(('process', 'Flow(%s).process() stats differ from results()' % ', '.join(path)))
-        elif pr['tree'] != rr['tree'] or pr['log'] != rr['log'] or pr['missing']:
+        elif pr['tree'] != rr['tree'] or pr['log'] != rr['log'] or \
+                [m for m in pr['missing'] if m not in sw['legit_missing']]:
             viol.append(('process', 'Flow(%s).process(): side effects differ from results()' % ', '.join(path)))
     return viol
 
